@@ -6,11 +6,11 @@
      Fn, NF, G1 (= G-1), G, l (dimensionless).
    Dimensions are vectors over (kg, m, s, A, K). *)
 EXTENDS Integers, Sequences, FiniteSets, TLC
-Symbols == {"kB", "T", "e", "h", "f0", "fs", "B", "Bopt", "R", "r", "P", "Fn", "NF", "G1", "G", "l", "idark"}
+Symbols == {"kB", "T", "e", "h", "f0", "fs", "B", "Bopt", "R", "r", "P", "Fn", "NF", "G1", "G", "l", "idark", "mu"}
 Dim(s) == CASE s = "kB" -> <<1, 2, -2, 0, -1>> [] s = "T" -> <<0, 0, 0, 0, 1>> [] s = "e" -> <<0, 0, 1, 1, 0>>
             [] s = "h" -> <<1, 2, -1, 0, 0>> [] s \in {"f0", "fs", "B", "Bopt"} -> <<0, 0, -1, 0, 0>>
             [] s = "R" -> <<1, 2, -3, -2, 0>> [] s = "r" -> <<-1, -2, 3, 1, 0>> [] s = "P" -> <<1, 2, -3, 0, 0>>
-            [] s = "idark" -> <<0, 0, 0, 1, 0>>
+            [] s = "idark" -> <<0, 0, 0, 1, 0>> [] s = "mu" -> <<1, 2, -3, -1, 0>>
             [] OTHER -> <<0, 0, 0, 0, 0>>
 Watt == <<1, 2, -3, 0, 0>>
 Amp2 == <<0, 0, 0, 2, 0>>
@@ -32,6 +32,20 @@ AseQuadrature == Mono(<<1, 4>>, [s \in {"NF", "h", "f0", "G1", "fs"} |-> 1])
 \* photodetector: thermal 4 kB T Fn B / R_load, shot 2 e (r P + idark) B   [A^2], with B = fs/2
 ThermalA2 == Mono(<<4, 1>>, [s \in {"kB", "T", "Fn", "B", "R"} |-> IF s = "R" THEN -1 ELSE 1])
 ShotA2(current) == Mono(<<2, 1>>, [s \in {"e", "B"} \cup current |-> 1])       \* current: {"r","P"} or {"idark"}
+\* receiver model in volts^2 (utils.noise_variances / utils.theory_BER): thermal 4 kB T B R Fn, shot 2 e mu B R (mu = level in volts)
+ThermalV2 == Mono(<<4, 1>>, [s \in {"kB", "T", "Fn", "B", "R"} |-> 1])
+ShotV2 == Mono(<<2, 1>>, [s \in {"e", "mu", "B", "R"} |-> 1])
+R2 == Mono(<<1, 1>>, [s \in {"R"} |-> 2])
+MuOverR == Mono(<<1, 1>>, [s \in {"mu", "R"} |-> IF s = "R" THEN -1 ELSE 1])
+\* ASE behind an optical filter of bandwidth Bopt (utils.p_ase) and its voltage offset r * P_ase * R
+PaseOpt == Mono(<<1, 1>>, [s \in {"NF", "h", "f0", "G1", "Bopt"} |-> 1])
+MuAse == Mono(<<1, 1>>, [s \in {"NF", "h", "f0", "G1", "Bopt", "r", "R"} |-> 1])
+\* ON-slot level without ASE: r * G * P_on * R
+Level == Mono(<<1, 1>>, [s \in {"r", "G", "P", "R"} |-> 1])
+ASSUME DimOf(ThermalV2) = Volt2 /\ DimOf(ShotV2) = Volt2 /\ DimOf(PaseOpt) = Watt /\ DimOf(MuAse) = <<1, 2, -3, -1, 0>> /\ DimOf(Level) = <<1, 2, -3, -1, 0>>
+\* the device models (amperes^2) and the utils model (volts^2) are the same physics:  V^2 = A^2 * R^2, current = mu / R
+ASSUME SameMono(Times(ThermalA2, R2), ThermalV2)
+ASSUME SameMono(Times(Mono(<<2, 1>>, [s \in {"e", "B"} |-> 1]), Times(MuOverR, R2)), ShotV2)
 ASSUME DimOf(AseTotal) = Watt
 ASSUME DimOf(ThermalA2) = Amp2
 ASSUME DimOf(ShotA2({"r", "P"})) = Amp2 /\ DimOf(ShotA2({"idark"})) = Amp2
